@@ -7,6 +7,8 @@ Require ExtrOcamlBasic.
 From NV Require Import Model.Chars Model.Matcher Spec.Matching Spec.Statements Model.Boxcar.
 From NV Require Import Model.Utf32.
 From NV Require Import Model.PatternScore.
+From NV Require Import Model.PatternParse Spec.PatternParseSpec.
+From NV Require Import Model.Nucleo.
 Extraction Language OCaml.
 Extraction "nv.ml" config_of preset_default preset_match_paths preset_set_match_paths
   to_lower is_upper normalize norm class class_norm cls_rank wf_char
@@ -15,5 +17,9 @@ Extraction "nv.ml" config_of preset_default preset_match_paths preset_set_match_
   naive_score spec_bonus_at spec_bonus_cfg needle_ok spec_prefix spec_postfix spec_exact
   has_ascii_graphemes graphemes utf32str_new utf32string_from_str utf32string_from_box utf32string_from_string utf32string_from_cow utf32str_len utf32str_is_empty utf32str_is_ascii utf32string_len utf32string_is_empty utf32str_slice utf32str_slice_u32 utf32string_slice utf32string_slice_u32 utf32str_get utf32str_first utf32str_last utf32str_chars chars_drive chars_collect chars_collect_back utf32str_display utf32str_debug utf32string_display utf32string_debug
   atom_score atom_indices pattern_score pattern_indices multi_score atom_match_list pattern_match_list set_flags algo_of_kind
+  pattern_parse pattern_new pattern_reparse atom_new atom_parse crlf seg_table seg_simple
+  escape escapable literal_atom marker_text lead_ok tail_ok tbl_negative tbl_kind tbl_source tbl_dollar
+  spec_atoms fold_if spec_ignore_case spec_normalize is_ascii
   layout_offsets view_lengths
-  init_state count do_event step_thread lookup location_of.
+  init_state count do_event step_thread lookup location_of
+  Nucleo.init_nstate Nucleo.do_event Nucleo.enabled_tick Nucleo.active_injectors Nucleo.count_of Nucleo.published.
